@@ -247,6 +247,12 @@ func (tr *FnTrans) purityOf(fn *ssa.Function, depth int) []string {
 						if lvalPath(cc.Args[0]) != "" && contains(tr.modAllowed, lvalPath(cc.Args[0])) {
 							continue // growing a slice the modifies clause names
 						}
+						if sl, ok := cc.Args[0].(*ssa.Slice); ok && bi.Name() == "copy" {
+							// copy(p[:], ...) where p is a pointer parameter whose pointee the modifies clause names
+							if p, ok := sl.X.(*ssa.Parameter); ok && contains(tr.modAllowed, "pointee("+p.Name()+")") {
+								continue
+							}
+						}
 						if !localRoot(cc.Args[0], 0) {
 							out = append(out, bi.Name()+" into non-local slice at "+at)
 						}
